@@ -50,7 +50,7 @@ LATTICE = dict(
 # max kf*|major-minor|*t on the thorough lattice is 11*(11-1/11)*3 = 360 < 709: no exp() overflow in doubles anywhere on the lattice
 # the (slow) "sympy backend called with rational numbers" spelling is enumerated on this sub-lattice, in both tiers
 SN_LATTICE = dict(K=_F("1/3", 1, 5), V=_F("1/3", 1, 5), P=_F(0, "1/2"), N=_F(1, 2), S=_F(0, "1/2"), T=_F(0, "1/7", 3))
-NUM_SPELLINGS = ("default", '"numpy"', "numpy", '"math"', "math", "numpy[array t]", "default[array t]", "sympy[numbers]")
+NUM_SPELLINGS = ("default", '"numpy"', "numpy", '"math"', "math", "numpy[array t]", "default[array t]", "numpy[array params]x2", "sympy[numbers]")
 DIMER_SPELLINGS = ("float", "numpy[array t]", "sympy[numbers]")
 
 
@@ -203,6 +203,7 @@ def _num_spelling_kw(sp_name):
         "math": dict(backend=math),
         "numpy[array t]": dict(backend=numpy),
         "default[array t]": dict(omit_defaults=True),
+        "numpy[array params]x2": dict(backend=numpy),
         "sympy[numbers]": dict(backend="sympy"),
     }[sp_name]
 
@@ -316,7 +317,28 @@ def _check_numeric(res, name, p, T, refs, sp_name, case):
         return _check_sympy_numbers(res, name, p, T, refs, case, kw, t0)
     pf = {q: (int(p[q]) if q == "n" else _fl(p[q])) for q in m["params"]}
     obs = []  # per time: list of component values or an 'EXC' tag
-    if sp_name.endswith("[array t]"):
+    if sp_name == "numpy[array params]x2":
+        # every parameter handed in as a numpy array (as a fitting driver does), the SAME array objects used for two calls:
+        # the second call must see unchanged inputs and return the same values
+        res.transitions += 2
+        ain = {q: (pf[q] if q == "n" else np.array([pf[q], pf[q]], dtype=float)) for q in pf}
+        keep = {q: (v.copy() if hasattr(v, "copy") else v) for q, v in ain.items()}
+        tv0 = T[min(1, len(T) - 1)]
+        try:
+            with np.errstate(all="ignore"):
+                _call(name, np.array([_fl(t0 + tv0)] * 2), ain, kw)
+                o = _call(name, np.array([_fl(t0 + tv0)] * 2), ain, kw)
+            o = o if isinstance(o, tuple) else (o,)
+            second = [float(np.broadcast_to(np.asarray(x, dtype=float), (2,))[0]) for x in o]
+        except Exception as ex:
+            second = _exc_tag(ex)
+        changed = [q for q in ain if hasattr(ain[q], "shape") and not np.array_equal(ain[q], keep[q], equal_nan=True)]
+        if changed:
+            res.outcomes["num:numpy:CALLERS-ARRAY-MODIFIED"] += 1
+            res.violation("C17|%s|numpy|callers-array-modified" % name, "%s(t, %s) with array-valued parameters: after two calls the caller's array(s) %r hold %r (were %r)" % (
+                name, _pstr(p), changed, [ain[q].tolist() for q in changed], [keep[q].tolist() for q in changed]), dict(case, mode=sp_name), [ain[q].tolist() for q in changed], [keep[q].tolist() for q in changed])
+        obs = [second if k == min(1, len(T) - 1) else None for k in range(len(T))]
+    elif sp_name.endswith("[array t]"):
         res.transitions += 1
         try:
             with np.errstate(all="ignore"):
@@ -338,8 +360,10 @@ def _check_numeric(res, name, p, T, refs, sp_name, case):
                 obs.append(_exc_tag(ex))
     bad = {}
     for k, tv in enumerate(T):
-        res.evaluations += 1
         o = obs[k]
+        if o is None:
+            continue
+        res.evaluations += 1
         if isinstance(o, str):
             if o in ("EXC ValueError", "EXC OverflowError", "EXC ZeroDivisionError"):
                 cl = "no-finite-value|" + _coarse(m["regime"](p))
